@@ -1,44 +1,6 @@
-mod common;
-mod emu;
-mod l0;
-mod l1;
-mod pt;
-mod refmodel;
-mod c01;
-mod c02;
-mod c03;
-mod c03cli;
-mod c04;
-mod c05;
-mod hist;
-mod c06;
-mod c07;
-mod c08;
-mod gen;
-mod c09;
-mod c09cli;
-mod c10;
-mod c11;
-mod c12;
-mod c13;
-mod c14;
-mod c15;
-mod c16;
-mod c18;
-mod c19;
-mod fuzzrun;
-mod ir;
-mod cli;
-mod clicheck;
-mod c17;
-mod c20;
-mod progs;
-mod asm;
-mod machine;
-mod grammar;
-mod pipeline;
 
-use common::*;
+use vcheck::common::*;
+use vcheck::*;
 
 fn usage() -> ! {
     eprintln!("usage: vcheck <C01..C20> <quick|thorough> | vcheck replay <file>");
